@@ -336,6 +336,11 @@ def add_delete_pair(ch, dom):
     if not f1 or not f2:
         return
     x1, x2 = ch.choice(f1), ch.choice(f2)
+    ty = lambda a, v: dict(a["params"])[v]
+    for _ in range(4):          # prefer parameters whose types differ (one a subtype of the other, or both of the predicate's)
+        if ty(a1, x1) != ty(a2, x2):
+            break
+        x1, x2 = ch.choice(f1), ch.choice(f2)
     if [p[0], x1] not in a1["eff"][1:] and ["not", [p[0], x1]] not in a1["eff"][1:]:
         a1["eff"].append([p[0], x1])
     if ["not", [p[0], x2]] not in a2["eff"][1:] and [p[0], x2] not in a2["eff"][1:]:
@@ -346,7 +351,7 @@ def gen(ch, tier):
     numeric = ch.flag(0.4)
     ft = c16.ma_feats(numeric=numeric, when=False, forall_eff=False, max_actions=4, max_params=3, empty_pre=True)
     dom, objects = G.gen_domain(ch, ft)
-    if ch.flag(0.5):
+    if ch.flag(0.7):
         add_delete_pair(ch, dom)
     world = pddl.World(dom, objects)
     init = G.gen_state(ch, world, density=ch.choice([0.5, 0.8]))
@@ -372,5 +377,5 @@ def plan(tier):
           "exhaustive_note": "the 5 sequential multi-agent plans the repository's converter tests use x constraint on/off x "
                              "agent list as given / reversed, judged by the reference parser + interpreter"}
     if tier == "quick":
-        return {**ex, "streams": {"retry": 1600}, "shards": 16}
-    return {**ex, "streams": {"retry": 20000}, "shards": 16}
+        return {**ex, "streams": {"retry": 6400}, "shards": 16}
+    return {**ex, "streams": {"retry": 60000}, "shards": 16}
